@@ -67,11 +67,16 @@ package markers
 //@   props C07 C10 C14
 //@   ensures result == self.cause
 
-//@ spec func isAnySpec(e error, refs []error) bool = exists i int :: 0 <= i && i < len(refs) && isSpec(e, refs[i])
+// isAnySpec is opaque: callers of IsAny see the atom; its definition (the disjunction of the
+// statement) is revealed where it is needed (IsAny itself, the C08 / C03 lemmas)
+//@ spec func isAnySpec(e error, refs []error) bool
+//@ unfold isAnySpec(e, refs) = exists i int :: 0 <= i && i < len(refs) && isSpec(e, refs[i])
+//@ opaque isAnySpec
 //@ spec func hereDirect(c error, r error) bool = (comparable(typeof(r)) && c == r) || isM2(c, r)
 
 //@ func IsAny
 //@   props C08 C13
+//@   reveal isAnySpec
 //@   ensures result == isAnySpec(err, references)
 //@   loop 1: invariant forall j int :: 0 <= j && j < $n ==> references[j] != nil
 //@   loop 2: invariant err != nil
